@@ -17,6 +17,22 @@ for f in sorted(glob.glob(root + "/replays/C09/*.json")):
                   "batch": c.get("batch", False), "one_script_run": c.get("one_script_run", False), "stack_caps": c.get("stack_caps", 0)})
 cases.sort(key=lambda c: c["signature"])
 json.dump(cases, open(root + "/checks/c09/regress.json", "w"), separators=(",", ":"))
+FINDING_TEXT = {
+ "reentrant-delegate": "C09-1 re-entrancy during yield*: a next()/throw()/return() on a generator issued from inside the [Symbol.iterator]/next/throw/return method of the iterator it is delegating to with yield* is not rejected with a TypeError (generatorObject.state stays suspendedYield while the yield* loop runs): the call re-enters the delegate recursively until the call stack overflows, e.g. `function* g(){ yield* {[Symbol.iterator](){return this}, next(){ try { self.next() } catch (e) {} return {value:1,done:false} }} }; self = g(); self.next()`. Fix: proposed-fixes/C09-reentrancy-during-yield-star.diff",
+ "register-locals": "C09-2 stack references not rebased on resume: inside `with`, an assignment / compound assignment / destructuring whose target is a register-allocated local and whose right-hand side suspends (yield, yield*, await) keeps a reference into vm.stack at an ABSOLUTE index (resolveMixedStack) in the saved refStack; vm.resume does not rebase it, so when the generator is resumed at another stack depth (always for async functions) the value lands in a foreign stack slot: the local keeps its old value, a later access throws ReferenceError/TypeError or the host panics with 'index out of range', e.g. `function* g(){ let a = 0; with ({}) { a = yield 1 } return a }; it = g(); it.next(); (function(){ var pad; return it.next(5) })()` returns {value:0,done:true}. Fix: proposed-fixes/C09-rebase-stack-references-on-resume.diff",
+ "stack-capacity": "C09-3 stale *tryFrame after closing iterators: generator.enterNextFinallyFrame (gen.return) - and vm.handleThrow (gen.throw, reported by C08) - keep a pointer into vm.tryStack across vm.restoreStacks(), which closes the pending for-of/destructuring iterators and thereby pushes try frames; when that append re-allocates the try stack (depends on its current capacity: fresh runtime, call depth of the driver) the updates of the frame are lost: after it.return(v) the finally block runs and execution then continues AFTER the try statement ({value:...,done:false} or code after the loop runs) resp. the thrown exception is lost, e.g. on a fresh runtime `function* g(){ try { for (var x of [1,2]) yield x } finally {} log('after') }; it = g(); it.next(); (function(){ let z; try { return it.return(5) } finally { z++ } })()` logs 'after' and yields {value:undefined,done:true}. Fix: proposed-fixes/C09-return-stale-tryframe-after-iterator-close.diff (+ proposed-fixes/C08-stale-tryframe-after-iterator-close.diff for the throw path)",
+ "after-return-suspended-in-finally": "known from C08 (signature 'events @ gen-return@1 > try{@}finally-throw > yield'): after it.return(v) has entered a finally block that yields, the following throw()/next()/return() misbehaves because enterNextFinallyFrame marked the finally frame as a panic marker: the exception is not delivered to the caller / the call does not return / Go nil-pointer panic / frames are left on the call and try stacks, e.g. `function* g(){ try { yield 1 } finally { yield 2 } }; it = g(); it.next(); it.return(5); it.throw(7)`. Fix: proposed-fixes/C08-generator-return-throw-in-finally.diff",
+ "throw-into-finally-of-try-with-catch": "known from C08 (signature 'events @ gen-drain > try{@}catch-finally-throw > normal'): it.throw(e) while the generator is suspended at a yield inside the finally block of a try/catch/finally statement is caught by the statement's own catch clause (the finally block then runs a second time) instead of propagating, e.g. `function* g(){ try {} catch (e) { log('caught') } finally { yield 1 } }; it = g(); it.next(); it.throw(7)` logs 'caught' and yields again. Fix: proposed-fixes/C08-finally-throw-caught-by-own-catch.diff",
+}
+out = open(root + "/findings.d/C09.jsonl", "w")
 for c in cases:
-    print(c["signature"])
+    sig = c["signature"]
+    trig = sig.split("|")[1]
+    txt = FINDING_TEXT.get(trig)
+    if txt is None:
+        print("NO TEXT FOR", sig, file=sys.stderr)
+        continue
+    out.write(json.dumps({"property": "C09", "signature": sig, "what": txt + " [symptom: " + "|".join(sig.split("|")[2:]) + "]"}) + "\n")
+    print(sig)
+out.close()
 print(len(cases), "cases", file=sys.stderr)
